@@ -185,6 +185,37 @@ fn live_jits(upto: usize) -> Vec<(u64, u64)> {
     live
 }
 
+/// a page the HARNESS maps (not the injector) over the most recently released trampoline address: (addr, expected content)
+pub static FOREIGN: std::sync::Mutex<Vec<(u64, Vec<u8>)>> = std::sync::Mutex::new(Vec::new());
+fn foreign_state() -> String {
+    let f = FOREIGN.lock().unwrap();
+    if f.is_empty() { return "none".into(); }
+    let maps = util::maps();
+    for (a, want) in f.iter() {
+        let m = maps.iter().find(|m| m.start <= *a && *a + 4096 <= m.end);
+        match m {
+            None => return format!("unmapped:{:x}", a),
+            Some(m) if !m.perms.starts_with("r-x") => return format!("remapped:{:x}:{}", a, m.perms),
+            Some(_) => { let cur = unsafe { std::slice::from_raw_parts(*a as *const u8, 4096) }; if cur != &want[..] { return format!("clobbered:{:x}", a); } }
+        }
+    }
+    "ok".into()
+}
+fn map_over_last_released() -> bool {
+    let mut last = None;
+    for i in 0..interpose::len() { let e = interpose::get(i); if e.kind == b'U' { last = Some(e.a & !0xfff); } }
+    let Some(page) = last else { return false };
+    unsafe {
+        let p = interpose::raw_mmap(page as *mut libc::c_void, 4096, libc::PROT_READ | libc::PROT_WRITE, libc::MAP_PRIVATE | libc::MAP_ANONYMOUS, -1, 0);
+        if p == libc::MAP_FAILED { return false; }
+        if p as u64 != page { interpose::raw_munmap(p, 4096); return false; }
+        let s = std::slice::from_raw_parts_mut(page as *mut u8, 4096);
+        for (i, b) in s.iter_mut().enumerate() { *b = if i % 16 == 0 { 0xB8 } else if i % 16 == 5 { 0xC3 } else if i % 16 < 5 { (i / 16 + i % 16) as u8 } else { 0xCC }; }
+        interpose::raw_mprotect(page as *mut libc::c_void, 4096, libc::PROT_READ | libc::PROT_EXEC);
+        FOREIGN.lock().unwrap().push((page, s.to_vec()));
+    }
+    true
+}
 pub static NOVALS: std::sync::atomic::AtomicBool = std::sync::atomic::AtomicBool::new(false);
 fn boundary(out: &mut String, id: &str, tag: &str, res: &str, ev_from: &mut usize, syms: &Syms, snap: &util::ExecSnapshot, with_diff: bool) {
     let n = interpose::len();
@@ -195,7 +226,7 @@ fn boundary(out: &mut String, id: &str, tag: &str, res: &str, ev_from: &mut usiz
     let jits: Vec<String> = live_jits(n).iter().map(|(a, l)| format!("{:x}={}", a, util::hex(&util::read16(*a)[..(*l as usize).min(16)]))).collect();
     let diff = if with_diff { snap.diff().iter().map(|(a, b)| format!("{:x}-{:x}", a, b)).collect::<Vec<_>>().join(",") } else { "skipped".into() };
     let _ = out;
-    util::emit(&format!("{id} {tag} PRE RES={res} EV={ev} SNAP={} JITS={}\n", snaps.join(","), jits.join(",")));   // what happened, before anything that may crash is attempted
+    util::emit(&format!("{id} {tag} PRE RES={res};foreign={} EV={ev} SNAP={} JITS={}\n", foreign_state(), snaps.join(","), jits.join(",")));   // what happened, before anything that may crash is attempted
     let vals: Vec<String> = if NOVALS.load(SeqCst) && !tag.ends_with("EXIT") { Vec::new() } else {
         syms.order.iter().filter(|s| !Syms::is_fake(s)).map(|s| format!("{}={}", s, syms.call(s, 7))).collect() };
     util::emit(&format!("{id} {tag} RES={res} EV={ev} VALS={} SNAP={} JITS={} DIFF={}\n", vals.join(","), snaps.join(","), jits.join(","), diff));
@@ -217,6 +248,9 @@ pub fn run_history(line: &str, with_diff: bool) -> String {
     interpose::reset();
     let mut ev_from = 0usize;
     for (li, ops) in lifetimes.iter().enumerate() {
+        // MAPOVER as first op: before this lifetime begins, somebody else maps code over the page of the last released trampoline
+        let ops: Vec<String> = if ops.first().map(|s| s.as_str()) == Some("MAPOVER") { let okm = map_over_last_released(); util::emit(&format!("{id} L{li} MAPOVER {okm}\n")); ops[1..].to_vec() } else { ops.clone() };
+        let ops = &ops;
         interpose::RECORD.store(true, SeqCst);
         let mut body_out = String::new();
         let (wtx, wrx) = std::sync::mpsc::channel();
